@@ -5,13 +5,13 @@
 package main
 
 import (
-	os2 "os"
-	"strings"
 	"bytes"
 	"context"
 	"errors"
 	"fmt"
 	"io"
+	os2 "os"
+	"strings"
 	"sync"
 
 	"github.com/Masterminds/semver"
@@ -55,7 +55,12 @@ func (c *pkgCache) Store(id string, rc io.ReadCloser) error {
 	c.m[id] = b
 	return nil
 }
-func (c *pkgCache) Delete(id string) error { c.mu.Lock(); defer c.mu.Unlock(); delete(c.m, id); return nil }
+func (c *pkgCache) Delete(id string) error {
+	c.mu.Lock()
+	defer c.mu.Unlock()
+	delete(c.m, id)
+	return nil
+}
 
 const depSource = "xpkg.example.org/acme/provider-dep"
 
